@@ -364,7 +364,7 @@ def eIncompatibleHot : String := "retention_policy_hot_duration_must_be_greater_
 def eIncompatibleWarm : String := "retention_policy_warm_duration_must_be_greater_than_the_shard_duration_and_lower_than_the_duration"
 def eIncompatibleSG : String := "retention_policy_hot_duration/warm_duration/index_duration_should_be_equal_n_*_shard_duration_and_n>=1"
 def eShardMerge : String := "retention_policy_shardMerge_duration_must_be_a_multiple_of_shardGroup_duration"
-def eIncompatibleIG : String := "retention_policy:_index_cold_duration_should_be_equals_to_m_*_index_duration_and_n_*_shard_duration,_wher"
+def eIncompatibleIG : String := "retention_policy:_index_cold_duration_should_be_equals_to_m_*_index_duration_and_n_*_shard_duration,_where_m/n_>=_1"
 
 /-- `RetentionPolicyInfo.CheckSpecValid`: normalises, then the chain of checks in source order. -/
 def checkSpecValid (x : Durs) : Except String Durs :=
@@ -673,9 +673,6 @@ def createDataNode (d : Data) (httpAddr tcpAddr role : String) : Step :=
       let ptNum := if d.clusterPtNum < newPt then newPt else d.clusterPtNum
       let d := { d with maxNodeID := id, dataNodes := nodes, clusterPtNum := ptNum }
       if role = "reader" then done d
-      else if d.ptView.any (fun (db, v) => v.length ≠ ptNum ∧ (alFind db d.databases).isNone) then
-        -- expandDBPtView reads Databases[db].ReplicaN of a view whose database does not exist
-        (d, .panic pNilDeref)
       else
         -- expandDBPtView: the new partitions of every database go to the new node, offline
         done { d with ptView := d.ptView.map fun (db, v) =>
@@ -748,7 +745,10 @@ def createRetentionPolicy (d : Data) (db : String) (s : RPSpec) (makeDefault : B
 def dropRetentionPolicy (d : Data) (db rp : String) : Step :=
   match getDatabase d db with
   | .error e => fail d e
-  | .ok dbi => done (setDB d { dbi with rps := alErase rp dbi.rps })
+  | .ok dbi =>
+    -- delete(map, name); the default name is cleared when it named the dropped policy
+    done (setDB d { dbi with rps := alErase rp dbi.rps,
+                             defaultRP := if rp ≠ "" ∧ dbi.defaultRP = rp then "" else dbi.defaultRP })
 
 def markRetentionPolicyDelete (d : Data) (db rp : String) : Step :=
   match getRP d db rp with
